@@ -7,7 +7,7 @@ import subprocess
 import time
 
 from . import proc_scen
-from .common import (BIN, ToolError, build_harness, finish, load_findings, log, save_replay, tlc_mc,
+from .common import (run_harness, BIN, ToolError, build_harness, finish, load_findings, log, save_replay, tlc_mc,
                      validate_sharded, workdir, write_evidence)
 
 PREFIX = {"C09": "C09_", "C10": "C10_", "C11": "C11_", "C12": "C12_"}
@@ -45,8 +45,7 @@ def run_traces(pid, tier, seed, replay=None):
             by_id[s["id"]] = s
             f.write(json.dumps(s) + "\n")
     trace_path = os.path.join(wd, "trace.ndjson")
-    r = subprocess.run([os.path.join(BIN, "proc_replay"), scen_path, trace_path], stdout=subprocess.PIPE,
-                       stderr=subprocess.PIPE, text=True, timeout=1500)
+    r = run_harness([os.path.join(BIN, "proc_replay"), scen_path, trace_path], 1500)
     if r.returncode != 0:
         log(r.stderr[-3000:])
         raise ToolError("proc_replay failed with status %d" % r.returncode)
